@@ -2,4 +2,4 @@
 From Coq Require Import List NArith ZArith QArith Extraction ExtrOcamlBasic.
 From Kenlm Require Import C05.KNDefs C05.KNSpec C05.KNModel.
 Extraction Language OCaml.
-Extraction "extracted/c05_model.ml" kn_spec kn_impl_gen kn_pipeline parse_pruning bo_prob vocab adjust table events sorted_counts order_stat.
+Extraction "extracted/c05_model.ml" kn_spec kn_impl_gen kn_pipeline parse_pruning bo_prob vocab adjust table events sorted_counts order_stat all_discounts.
